@@ -789,7 +789,7 @@ func largeMerges(c *explore.Ctx, check func(scope string, idx int64, r *mergeRun
 	// implemented via explicit batches (not SegSpec): see largeMergeCase
 	// a negative size n means: a small segment of -n documents that has the field but not the
 	// term (so the term's iterator index differs from its position among the term's iterators)
-	sizes := [][2]int{{1023, 2}, {1024, 1025}, {600, 600}, {-3, 2048}, {2048, -3}, {66000, 3}, {40000, 30000}}
+	sizes := [][2]int{{1023, 2}, {1024, 1025}, {600, 600}, {-3, 2048}, {2048, -3}, {66000, 3}, {40000, 30000}, {9000, 9000}, {12000, 9000}}
 	if c.Thorough() {
 		sizes = append(sizes, [2]int{2049, 1}, [2]int{1025, 1024}, [2]int{1500, 1600}, [2]int{-1, 3073}, [2]int{-5, 1100})
 	}
@@ -851,7 +851,7 @@ func largeMergeCase(n0, n1, pat, dropPat int, out uint32) *mergeRun {
 		switch dropPat {
 		case 1:
 			bm, ds = roaring.New(), map[uint64]bool{}
-			for j := 0; j < n; j += 2 {
+			for j := i % 2; j < n; j += 2 { // the even documents of the first input, the odd ones of the second
 				bm.Add(uint32(j))
 				ds[uint64(j)] = true
 			}
